@@ -26,7 +26,7 @@ DIAG_RE = re.compile(r"^(Error|Notice): (\S+)\s+\(line:\s*(\d+), col:\s*(\d+)\):
 def parse_any(stdout, fmt):
     """[(basename, status, sorted [(level, code, line, col)])] from either format (debug lines skipped)"""
     if fmt == "json":
-        jl = [l for l in stdout.split("\n") if l.startswith('{"files"')]
+        jl = [l[l.index('{"files"'):] for l in stdout.split("\n") if '{"files"' in l]     # may follow a debug dump on the same line
         if not jl:
             return None
         doc = json.loads(jl[-1])
@@ -40,7 +40,8 @@ def parse_any(stdout, fmt):
         if m and files:
             files[-1][2].append((m.group(1), m.group(2), int(m.group(3)), int(m.group(4))))
             continue
-        m = re.match(r"^([^\s:][^:]*\.[ch]): (OK|Error)!$", line)
+        # with -dd the token dump of an unterminated literal ends without a newline, so the verdict can follow `> ` on the same line
+        m = re.match(r"^(?:.*> )?([^\s:>][^:>]*\.[ch]): (OK|Error)!$", line)
         if m:
             files.append([os.path.basename(m.group(1)), m.group(2), []])
     return [(a, b, sorted(c)) for a, b, c in files]
@@ -56,7 +57,10 @@ def run(res, tier, br, model_ok=True, search=False):
     big = tier == "thorough" or search
     progs = families.programs(rng, 30 if big else 6)
     viol = families.violating(rng, progs, per_prog=2)
-    files = [(p.name, p.text) for p in progs[:3]] + [(p.name, t) for p, op, site, t, line in viol]
+    # lexical diagnostics that carry several highlights (each format picks the position it shows from them)
+    lexical = [("octal.c", "int\tf(void)\n{\n\treturn (0897);\n}\n"), ("binary.c", "int\tg_b = 0b12013;\n"),
+               ("string.c", "int\tf(char *s)\n{\n\ts = \"abc;\n}\n"), ("esc.c", "char\tg_c = 'ab';\nchar\tg_d = '\\q';\n")]
+    files = lexical[:2] + [(p.name, p.text) for p in progs[:3]] + lexical[2:] + [(p.name, t) for p, op, site, t, line in viol]
     files += [("defs.c", "#define limit 1 + 2\n#define SQUARE(x) x * x\n#define OK 1\n#define lower_ok 3\n\nint\tmain(void)\n{\n\treturn (OK);\n}\n"),
               ("notice.c", "int\tg_counter;\n"),
               ("defs.h", "#ifndef DEFS_H\n# define DEFS_H\n# define bad(x) (x + 1)\n# define N 1 +\n#endif\n")]
@@ -111,6 +115,31 @@ def run(res, tier, br, model_ok=True, search=False):
                 got = parse_any(out["stdout"], fmt) if out.get("exit") is not None else None
                 if got != b:
                     res.report("inline:findings-differ", f"{name} passed with {flag}: {got} instead of {b}"[:600], dict(rp, opts=extra + [flag]))
+        # several files in one run: both formats list them in the order of the command line (separate processes)
+        d = os.path.join(tmp, "multi")
+        os.makedirs(d)
+        multi = files[:9]
+        names = []
+        for k, (name, src) in enumerate(multi):
+            nm = f"m{k}_{name}"
+            open(os.path.join(d, nm), "w").write(src)
+            names.append(nm)
+        rng.shuffle(names)
+        outs = {}
+        for o in ([], ["-f", "json"], ["--no-colors", "-o"]):
+            out = run_cli(o + names, d)
+            res.count("multi", 1)
+            if out.get("hang") or out["exit"] is None:
+                continue
+            got = parse_any(out["stdout"], "json" if "json" in o else "humanized")
+            if got is not None and "Unrecognized" not in out["stdout"]:
+                outs[tuple(o)] = got
+                if [g[0] for g in got] != names[:len(got)] or len(got) != len(names):
+                    res.report("options:file-order", f"with {o}: files listed as {[g[0] for g in got]}, command line {names}",
+                               {"kind": "multi", "opts": o, "files": dict((n, s_) for n, (_, s_) in zip([f'm{k}_{nm}' for k, (nm, _) in enumerate(multi)], multi)), "argv": names})
+        vals = list(outs.values())
+        if any(v != vals[0] for v in vals[1:]):
+            res.report("options:findings-differ", f"multi-file run: formats disagree {vals}"[:500], {"kind": "multi", "argv": names})
         res.sample({"options": files[0][0]})
     finally:
         shutil.rmtree(tmp, ignore_errors=True)
